@@ -676,6 +676,10 @@ def extract_check(pid, tier, sets, what):
     # the admission rule and the extracted values as every statement kind sees them (Engine.tla over table variants)
     engine_run(c, "admission", "CoreMenu", lines="LinesNoise", maxlines=2, maxfiles=1, tdefs=("plain", "knn", "vdef", "bothnn"))
     extract_trace(c, tier)
+    # the lines themselves: what reaches the extraction is the file's line (a line that is not UTF-8, CRLF, a last line without line break never disturb their neighbours)
+    rr = tlc("MC_Reader", cfg_text(constants={"MaxLen": 4, "MaxFiles": 1, "Dev": set()}, invariants=["ExactlyOnceInOrder", "Emit"]), "reader-" + pid, workers=W)
+    expect_holds(rr, "Reader (%s)" % pid); c.add_tlc(rr)
+    c.add_report(vh_replay("reader", rr.replay_path, "reader-" + pid), "FileExecutor / join loader line reading vs Reader.tla (replay)")
     c.assumptions = ["the regex crate is trusted for matching itself; the capture groups of every generated line are cross-checked against it directly (a disagreement is a tool error)",
                      "REAL literals outside plain decimals, a TIMESTAMP whose month group did not take part, duplicate JSON keys and numbers beyond i64 read as REAL are left open (outcome not compared, only totality)",
                      "semantic comparison under TZ=UTC"]
